@@ -459,6 +459,70 @@ def algebra_stream(ctx):
             ctx.violation(f"dim_map:{mode}", "dim_map differs from row-major flattening", {"dims": dims2, "coos": coos, "mode": mode})
 
 
+def dim_map_nd_stream(ctx):
+    """3-D and higher coordinates (unequal axis lengths): flat index vs the model (in Coq) and a reference."""
+    import quimb as qu
+    import quimb.core as qc
+
+    rng = ctx.rng
+    cases, info = [], {}
+    cid = 0
+    for it in range(ctx.n(120, 1200)):
+        nd = rng.randint(3, 4)
+        szs = [rng.randint(1, 4) for _ in range(nd)]
+        ncoo = rng.randint(1, 3)
+        mode = rng.choice(["plain", "cyclic", "trim"])
+        if mode == "plain":
+            coos = [tuple(rng.randint(0, s - 1) for s in szs) for _ in range(ncoo)]
+        else:
+            coos = [tuple(rng.randint(-2, s + 1) for s in szs) for _ in range(ncoo)]
+        dims = np.array([rng.randint(1, 3) for _ in range(int(np.prod(szs)))]).reshape(szs)
+        ctx.count(("dim_map_nd", tuple(szs), tuple(coos), mode), len(set(szs[1:])) > 1)
+        ctx.bump("dim_map_nd:" + mode)
+        try:
+            fd, fi = qc.dim_map(dims.tolist(), coos, cyclic=(mode == "cyclic"), trim=(mode == "trim"))
+        except Exception as e:
+            ctx.violation("dim_map_nd:raised", f"dim_map raised {type(e).__name__} on valid nd input", {"szs": szs, "coos": coos, "mode": mode})
+            continue
+        if mode == "cyclic":
+            eff = [tuple(c % s for c, s in zip(coo, szs)) for coo in coos]
+        elif mode == "trim":
+            eff = [coo for coo in coos if all(0 <= c < s for c, s in zip(coo, szs))]
+        else:
+            eff = coos
+        want = [int(np.ravel_multi_index(c, szs)) for c in eff]
+        if list(fd) != [int(x) for x in dims.reshape(-1)] or list(fi) != want:
+            ctx.violation("dim_map_nd", "dim_map on >= 3-D coordinates is not row-major flattening",
+                          {"szs": szs, "coos": coos, "mode": mode, "got": list(map(int, fi)), "want": want})
+        for c, got in zip(eff, fi):
+            cid += 1
+            info[cid] = {"szs": szs, "coo": c, "impl": int(got)}
+            cases.append((cid, f"nd_flat {zlist(szs)} {zlist(c)} =? {zlit(int(got))}"))
+        # embedding at nd coordinates: operator lands on the subsystem at the row-major position
+        if mode == "plain" and np.prod([float(x) for x in dims.reshape(-1)]) <= 64 and len(set(coos)) == len(coos):
+            c0 = coos[0]
+            d0 = int(dims[c0])
+            A = rng_int_matrix(rng, d0, d0)
+            try:
+                E = np.asarray(qu.ikron(A, dims.tolist(), [c0]))
+                flat = [int(x) for x in dims.reshape(-1)]
+                pos = int(np.ravel_multi_index(c0, szs))
+                ref = np.array([[1.0]])
+                for k, dk in enumerate(flat):
+                    ref = np.kron(ref, A if k == pos else np.eye(dk))
+                if E.shape != ref.shape or not np.array_equal(E, ref):
+                    ctx.violation("ikron:nd_coordinates", "ikron at a multi-dimensional coordinate embeds on the wrong subsystem",
+                                  {"szs": szs, "coo": c0})
+            except Exception as e:
+                ctx.violation("ikron:nd_coordinates:raised", f"ikron raised {type(e).__name__}", {"szs": szs, "coo": c0, "error": str(e)[:150]})
+    header = ("From Coq Require Import ZArith List Bool.\nFrom QV Require Import C15.Model.\nImport ListNotations.\nOpen Scope Z_scope.\n")
+    failed, errors = ctx.coq_cases("dimmapnd", header, cases, shard=500)
+    for path, err in errors:
+        ctx.broken_obligation("correspondence:dim_map_nd:" + path.split("/")[-1], err)
+    for c in failed[:5]:
+        ctx.broken_obligation("correspondence:dim_map_nd_model_vs_impl", info[c])
+
+
 def ham_ownership(ctx):
     import quimb as qu
 
@@ -501,6 +565,7 @@ def run(ctx):
     ctx.stage(ikron_stream)
     ctx.stage(compress_stream)
     ctx.stage(algebra_stream)
+    ctx.stage(dim_map_nd_stream)
     ctx.stage(ham_ownership)
 
 
